@@ -341,6 +341,124 @@ def _split_or_guards(fnode):
     return changed[0]
 
 
+def _unroll_table_loops(fnode, module_tree):
+    """`for k, f in TABLE: body` over a module-level literal tuple / list of constants, lambdas or tuples of these (at most
+    8 rows, body without break / continue / else) -> the body once per row with the row substituted (a call of a lambda
+    from the table is replaced by the lambda's body).  The table-driven spelling of repeated code."""
+    tables = {}
+    for st in module_tree.body:
+        if isinstance(st, ast.Assign) and len(st.targets) == 1 and isinstance(st.targets[0], ast.Name) \
+                and isinstance(st.value, (ast.Tuple, ast.List)) and 1 <= len(st.value.elts) <= 8:
+            tables[st.targets[0].id] = st.value
+    if not tables:
+        return False
+    stores = {n.id for n in ast.walk(fnode) if isinstance(n, ast.Name) and isinstance(n.ctx, ast.Store)}
+    changed = [False]
+
+    def simple(e):
+        return isinstance(e, (ast.Constant, ast.Lambda, ast.Name, ast.Attribute))
+
+    class Sub(ast.NodeTransformer):
+        def __init__(self, mp):
+            self.mp = mp
+
+        def visit_Call(self, node):
+            self.generic_visit(node)
+            if isinstance(node.func, ast.Lambda) and not node.keywords and len(node.args) == len(node.func.args.args) \
+                    and not any(isinstance(a, ast.Starred) for a in node.args):
+                lam = node.func
+                inner = dict(zip([a.arg for a in lam.args.args], node.args))
+                return _Renamer(inner).visit(_copy(lam.body))
+            return node
+
+        def visit_Name(self, node):
+            if node.id in self.mp and isinstance(node.ctx, ast.Load):
+                return _copy(self.mp[node.id])
+            return node
+
+    def fix(stmts):
+        out = []
+        for s_ in stmts:
+            if isinstance(s_, ast.For) and isinstance(s_.iter, ast.Name) and s_.iter.id in tables and s_.iter.id not in stores \
+                    and not s_.orelse and not any(isinstance(x, (ast.Break, ast.Continue)) for b in s_.body for x in ast.walk(b)):
+                rows = tables[s_.iter.id].elts
+                tg = s_.target
+                names = [tg.id] if isinstance(tg, ast.Name) else ([e.id for e in tg.elts] if isinstance(tg, ast.Tuple) and
+                                                                  all(isinstance(e, ast.Name) for e in tg.elts) else None)
+                ok = names is not None
+                if ok:
+                    for r in rows:
+                        vals = [r] if isinstance(tg, ast.Name) else (r.elts if isinstance(r, (ast.Tuple, ast.List)) else None)
+                        if vals is None or len(vals) != len(names) or not all(simple(v) for v in vals):
+                            ok = False
+                if ok and not any(n_.id in names for b in s_.body for n_ in ast.walk(b) if isinstance(n_, ast.Name) and isinstance(n_.ctx, ast.Store)):
+                    for r in rows:
+                        vals = [r] if isinstance(tg, ast.Name) else list(r.elts)
+                        mp = dict(zip(names, vals))
+                        for b in s_.body:
+                            nb = Sub(mp).visit(_copy(b))
+                            ast.copy_location(nb, s_)
+                            out.append(nb)
+                    changed[0] = True
+                    continue
+            out.append(s_)
+        return out
+
+    def walk(node):
+        for field in ('body', 'orelse', 'finalbody'):
+            blk = getattr(node, field, None)
+            if isinstance(blk, list) and blk and isinstance(blk[0], ast.stmt):
+                for s_ in blk:
+                    if not isinstance(s_, (ast.FunctionDef, ast.ClassDef)):
+                        walk(s_)
+                setattr(node, field, fix(blk))
+        for h in getattr(node, 'handlers', []) or []:
+            for s_ in h.body:
+                walk(s_)
+            h.body = fix(h.body)
+    walk(fnode)
+    return changed[0]
+
+
+def _fold_field_aliases(fnode):
+    """`m = self._mapping` (a local bound once to a private attribute of a parameter, the attribute never rebound in the
+    function) ... `m[i]`  ->  `self._mapping[i]`: the alias names the same object, and the rules look for the field."""
+    a = fnode.args
+    params = {x.arg for x in a.posonlyargs + a.args + a.kwonlyargs}
+    count, val, stmt_of = {}, {}, {}
+    for n in ast.walk(fnode):
+        if isinstance(n, ast.Name) and isinstance(n.ctx, (ast.Store, ast.Del)):
+            count[n.id] = count.get(n.id, 0) + 1
+    for n in ast.walk(fnode):
+        if isinstance(n, ast.Assign) and len(n.targets) == 1 and isinstance(n.targets[0], ast.Name) \
+                and isinstance(n.value, ast.Attribute) and isinstance(n.value.value, ast.Name) and n.value.value.id in params \
+                and n.value.attr.startswith('_') and not n.value.attr.startswith('__') and count.get(n.targets[0].id) == 1 \
+                and n.targets[0].id not in params:
+            val[n.targets[0].id] = n.value
+            stmt_of[n.targets[0].id] = n
+    if not val:
+        return False
+    # the attribute must not be rebound in this function
+    rebound = {(x.value.id, x.attr) for x in ast.walk(fnode) if isinstance(x, ast.Attribute) and isinstance(x.ctx, (ast.Store, ast.Del))
+               and isinstance(x.value, ast.Name)}
+    val = {k: v for k, v in val.items() if (v.value.id, v.attr) not in rebound}
+    if not val:
+        return False
+
+    class T(ast.NodeTransformer):
+        def visit_Name(self, node):
+            if node.id in val and isinstance(node.ctx, ast.Load):
+                return ast.copy_location(_copy(val[node.id]), node)
+            return node
+
+        def visit_Assign(self, node):
+            if any(node is s_ for s_ in stmt_of.values()):
+                return node
+            return self.generic_visit(node)
+    fnode.body = [T().visit(s_) for s_ in fnode.body]
+    return True
+
+
 def _fold_condition_vars(fnode):
     """`c = E ; if c: ...` / `while c:` with c used nowhere else  ->  `if E: ...` (a test that was given a name)."""
     uses = {}
@@ -557,9 +675,11 @@ def inline_program(prog):
             continue
         before = count
         fn.node.body = rewrite_block(fn, fn.node.body, 0)
-        folded = _fold_return_vars(fn.node)
+        folded = _unroll_table_loops(fn.node, fn.module.tree)
+        folded = _fold_return_vars(fn.node) or folded
         folded = _expand_star_tuples(fn.node) or folded
         folded = _fold_condition_vars(fn.node) or folded
+        folded = _fold_field_aliases(fn.node) or folded
         folded = _split_or_guards(fn.node) or folded
         folded = _list_accumulators_to_tuples(fn.node) or folded
         if count != before or folded:
